@@ -39,7 +39,15 @@ def sqlite(graph, use_latlon=False, name=None, bulk=True):
     sm = SqliteMap(name, use_latlon=use_latlon, dir=d)
     nodes = [(k, tuple(v[0])) for k, v in graph.items()]
     edges = [(a, b) for a, v in graph.items() for b in v[1] if a != b]
-    if bulk:
+    if bulk == "deferred":
+        # deferred indexing: rows are inserted without index maintenance and without commit, the indexes are rebuilt at the end
+        for k, p in nodes:
+            sm.add_node(k, p, no_index=True, no_commit=True)
+        for a, b in edges:
+            sm.add_edge(a, b, no_index=True, no_commit=True)
+        sm.reindex_nodes()
+        sm.reindex_edges()
+    elif bulk:
         sm.add_nodes(nodes)
         sm.add_edges(edges)
     else:
